@@ -10,6 +10,8 @@ tools/gen_root.sh
 cd lean
 lake build HdVerif.Model.Basic HdVerif.Model.Json HdVerif.Audit 2>&1 | grep -v "^warning\|^Hint\|^Note\|^  \|^$" | tail -5
 rc=${PIPESTATUS[0]}
+# all property modules at once first (parallel across properties); a failure there is sorted out module by module below
+lake build $(for f in HdVerif/Props/C*.lean; do echo "HdVerif.Props.$(basename "$f" .lean)"; done) >/dev/null 2>&1
 for f in HdVerif/Props/C*.lean; do
   m="HdVerif.Props.$(basename "$f" .lean)"
   lake build "$m" >/dev/null 2>&1 && echo "setup: built $m" || echo "setup: $m does not build (its check will report it)"
